@@ -58,6 +58,8 @@ def check_case(spec, tmpdir):
                 dump_one(data, path, **fmtarg, **built["dump_kwargs"])
             except Exception as exc:
                 cause = exc.__cause__
+                if "may_refuse" in labels and type(exc).__name__ in ("DumpError", "PrepareDumpError"):
+                    return [], labels + ["refused_out_of_domain"], False
                 return [
                     Problem(
                         f"C02/{fmt}/refused",
